@@ -777,7 +777,15 @@ def run_case(case: dict) -> Outcome:
     if not res["closed_after"]:
         raise Violation("connection-leak", "connection still open after the server was shut down", **info)
     if res["spin_jumps"]:
-        raise HarnessError(f"virtual loop made {res['spin_jumps']} busy-run clock jumps: exact-time oracle not applicable")
+        # generated schedules keep their own zero-delay chains far below the virtual loop's busy-run threshold (200 consecutive
+        # non-idle iterations), so a busy run can only come from the server itself keeping the loop busy without waiting
+        # for anything (e.g. re-feeding the same input to fresh handlers for ever)
+        raise Violation(
+            "busy-loop",
+            f"the %s server kept the event loop busy for at least 200 consecutive iterations without any timer "
+            f"({res['spin_jumps']} busy-run clock jump(s) of the virtual loop)" % "stream",
+            **info,
+        )
 
     # classification
     kinds = [e[0] for e in pred_log]
